@@ -54,7 +54,8 @@ def rec(kind, ver, xsd, doc, exp, got, extra=None):
 
 def st_hier():
     from hypothesis import strategies as st
-    blk = st.sampled_from(['', '', 'extension', 'restriction', '#all', 'extension restriction'])
+    # None = no block attribute (blockDefault applies); '' = explicit empty block (overrides blockDefault, blocks nothing)
+    blk = st.sampled_from([None, None, '', 'extension', 'restriction', '#all', 'extension restriction'])
 
     @st.composite
     def hier(draw):
@@ -86,7 +87,7 @@ def hier_xsd(m):
     out = ['<xs:schema xmlns:xs="%s"%s>' % (XS, ' blockDefault="%s"' % m['bd'] if m['bd'] else '')]
     for i, t in enumerate(m['types']):
         attrs = ' name="%s"%s%s' % (t['name'], ' abstract="true"' if t['abstract'] else '',
-                                    ' block="%s"' % t['block'] if t['block'] else '')
+                                    ' block="%s"' % t['block'] if t['block'] is not None else '')
         if t['base'] is None:
             out.append('<xs:complexType%s><xs:sequence><xs:element name="c0" type="xs:string" minOccurs="0"/>'
                        '</xs:sequence></xs:complexType>' % attrs)
@@ -124,7 +125,7 @@ def hier_oracle(m, e, j, children):
         return False
     if T[j]['abstract']:
         return False
-    blk = blockset(e['block'], m['bd']) | blockset(T[i]['block'] or None, m['bd'])
+    blk = blockset(e['block'], m['bd']) | blockset(T[i]['block'], m['bd'])
     if any(s in blk for s in steps):
         return False
     # content judged by the named type: a subsequence of its ordered optional children
@@ -373,13 +374,17 @@ def judge_alternatives(st, rnd, n):
                             '<xs:element name="c%s"/></xs:sequence></xs:extension></xs:complexContent></xs:complexType>'
                             % (x, x.lower()) for x in 'ABC')
             xsd = ('<xs:schema xmlns:xs="%s"><xs:complexType name="T0"><xs:sequence/><xs:attribute name="k" '
-                   'type="xs:string"/></xs:complexType>%s<xs:element name="e" type="T0">%s</xs:element></xs:schema>'
+                   'type="xs:string"/></xs:complexType>%s<xs:element name="e" type="T0">%s</xs:element>'
+                   '<xs:element name="w"><xs:complexType><xs:sequence><xs:element ref="e"/></xs:sequence><xs:attribute '
+                   'name="k" type="xs:string" inheritable="true"/></xs:complexType></xs:element></xs:schema>'
                    % (XS, types, alts))
             s = xmlschema.XMLSchema11(xsd)
-            for k in ('a', 'b', 'c', None):
+            # inh: value of the INHERITABLE attribute k on the parent w (None = e is the root); the element's own k wins
+            for k, inh in [(k, None) for k in ('a', 'b', 'c', None)] + [(k, i) for k in ('a', 'b', None) for i in ('a', 'b', 'c')]:
+                keff = k if k is not None else inh
                 gov = 'T0'
                 for i, t in enumerate(combo):
-                    if eval_test(ALT_TESTS[t], k):
+                    if eval_test(ALT_TESTS[t], keff):
                         gov = 'T' + 'AB'[i]
                         break
                 else:
@@ -388,6 +393,8 @@ def judge_alternatives(st, rnd, n):
                 for child in ('ca', 'cb', 'cc', None):
                     st.case()
                     doc = '<e%s>%s</e>' % ('' if k is None else ' k="%s"' % k, '' if child is None else '<%s/>' % child)
+                    if inh is not None:
+                        doc = '<w k="%s">%s</w>' % (inh, doc)
                     exp = (child is None) if gov == 'T0' else (child == 'c' + gov[1].lower())
                     st.nt(('alt', xsd, doc))
                     got = s.is_valid(doc)
